@@ -379,6 +379,41 @@ func (c *Ctx) ruleX3() {
 					full = true
 				}
 			})
+			// the frame may be read by a helper that hands the buffer back: every buffer it
+			// returns (other than nil) is one it filled with io.ReadFull
+			if !full {
+				src := data
+				if ex, ok := src.(*ssa.Extract); ok {
+					src = ex.Tuple
+				}
+				if hc, ok := src.(*ssa.Call); ok {
+					if h := hc.Call.StaticCallee(); h != nil && h.Blocks != nil && h.Pkg == f.Pkg {
+						okAll, any := true, false
+						eachInstr(h, func(in ssa.Instruction) {
+							r, isRet := in.(*ssa.Return)
+							if !isRet || len(r.Results) == 0 {
+								return
+							}
+							for _, rv := range resolveSpill(r.Results[0]) {
+								if isNilConst(rv) {
+									continue
+								}
+								any = true
+								filled := false
+								eachCall(h, func(rc ssa.CallInstruction) {
+									if calleeFull(rc) == "io.ReadFull" && len(rc.Common().Args) == 2 && rc.Common().Args[1] == rv {
+										filled = true
+									}
+								})
+								if !filled {
+									okAll = false
+								}
+							}
+						})
+						full = any && okAll
+					}
+				}
+			}
 			if full {
 				c.ok("X3", fnKey(f)+"→payload#full-read", call.Pos(), "the delivered buffer is the one filled by io.ReadFull")
 			} else {
